@@ -134,7 +134,7 @@ class C09(core.Check):
                 via = r.choice(["validator", "validator", "validator", "module", "fresh"])
                 if via == "module" and it["root"] != "map":
                     via = "validator"
-                ops.append({"op": "validate", "item": it, "version": v, "rel": rel, "via": via})
+                ops.append({"op": "validate", "item": it, "version": v, "rel": rel, "via": via, "as_list": r.random() < 0.1})
             elif c < 0.8:
                 ops.append({"op": "export", "schema": r.choice(EXPORT_NAMES + ([last["root"]] if last and last["root"] not in ("map", "layer") else [])),
                             "version": r.choice([None, None] + GRID + [7, 8]) if r.random() < 0.7 else (last["bounds"][0] if last else 7.6)})
@@ -212,6 +212,9 @@ class C09(core.Check):
                 it = op["item"]
                 doc, root = it["doc"], it["root"]
                 want = m.verdict(doc, root, ver)
+                if op.get("as_list"):
+                    doc = [doc, doc]  # a list of root dictionaries is taken one by one
+                    want = sorted(want + want)
                 with simfs.mounted(fs):
                     if op["via"] == "validator":
                         got = core.call(lambda: V.validate(doc, schema_name=root, version=ver))
